@@ -154,7 +154,9 @@ class TypeTransformer:
                 # * querystring -> query dict
                 # * multipart/form-data -> files
                 raise TypeError
-            return list(value)[0]
+            # the first item, without walking through the rest (list(value)[0] would: forever, if a container
+            # subclass iterates without end)
+            return next(iter(value))
         if isinstance(value, Enum):
             return value.value
         return value
